@@ -161,7 +161,7 @@ def _nonpos(e, res=None):
 
 def unsaturated_exp(term, bounded_names=(), res=None):
     """exp(arg) nodes of a resolved term whose argument depends on something other than `bounded_names`, is not provably
-    non-positive, and whose value does not pass through a denominator (or log1p / logaddexp) on the way out: such a factor
+    non-positive, and whose value does not pass through a denominator (or logaddexp / tanh) on the way out: such a factor
     overflows to inf for admissible inputs and turns `inf * 0` into nan."""
     parents = {}
     for n in ast.walk(term):
@@ -183,7 +183,8 @@ def unsaturated_exp(term, bounded_names=(), res=None):
                 if isinstance(p, ast.BinOp) and isinstance(p.op, ast.Div) and p.right is cur:
                     sat = True
                     break
-                if isinstance(p, ast.Call) and ast.unparse(p.func) in ("log1p", "logaddexp", "log", "tanh", "arctan"):
+                # (log / log1p do NOT saturate: exp overflows to inf first and log(inf) is inf - log(1 + exp(x)) must be logaddexp(0, x))
+                if isinstance(p, ast.Call) and ast.unparse(p.func) in ("logaddexp", "tanh", "arctan"):
                     sat = True
                     break
                 if isinstance(p, ast.Call) and p.func is not cur and ast.unparse(p.func) not in ("array", "float"):
@@ -197,6 +198,37 @@ def unsaturated_exp(term, bounded_names=(), res=None):
 # J6  integer-dtype hazards: places where a legal integer-typed input silently turns float arithmetic into integer arithmetic
 FLOAT_DTYPES = {"float", "float64", "float32", "double", "complex", "complex128", "'float'", "'float64'", "'f8'", "longdouble"}
 LIKE_FUNCS = {"zeros_like", "empty_like", "ones_like", "full_like"}
+
+
+FLOAT_MAKERS = {"exp", "log", "sqrt", "solve_triangular", "solve", "inv", "cholesky", "cho_solve", "erf", "erfc", "log1p", "expm1", "tanh",
+                "mean", "std", "var", "linspace", "float", "astype_float", "slogdet", "det", "pinv", "lstsq"}
+
+
+def _float_valued(e, fn, depth=4, assume=()):
+    """The expression is certainly floating point: it contains a true division, a float literal or the result of a function that
+    always returns floats; locals bound exactly once in `fn` are looked through."""
+    if depth <= 0:
+        return False
+    for x in ast.walk(e):
+        if isinstance(x, ast.BinOp) and isinstance(x.op, ast.Div):
+            return True
+        if isinstance(x, ast.Constant) and isinstance(x.value, float):
+            return True
+        if isinstance(x, ast.Call):
+            nm = x.func.id if isinstance(x.func, ast.Name) else x.func.attr if isinstance(x.func, ast.Attribute) else None
+            if nm in FLOAT_MAKERS:
+                return True
+        if isinstance(x, ast.Name) and isinstance(x.ctx, ast.Load):
+            if x.id in assume:
+                return True
+            sites = [st for st in ast.walk(fn) if isinstance(st, ast.Assign) and len(st.targets) == 1 and isinstance(st.targets[0], ast.Name)
+                     and st.targets[0].id == x.id]
+            # every binding is float arithmetic (a re-binding from the name itself, `iK = iK.T @ iK`, keeps the type)
+            plain = [st for st in sites if not any(isinstance(y, ast.Name) and y.id == x.id for y in ast.walk(st.value))]
+            if sites and plain and all(_float_valued(st.value, fn, depth - 1, assume) for st in plain) \
+                    and all(_float_valued(st.value, fn, depth - 1, tuple(assume) + (x.id,)) for st in sites if st not in plain):
+                return True
+    return False
 
 
 def integer_dtype_hazards(fn):
@@ -213,6 +245,8 @@ def integer_dtype_hazards(fn):
         f = n.func
         name = f.id if isinstance(f, ast.Name) else f.attr if isinstance(f, ast.Attribute) else None
         if name == "reciprocal":
+            if n.args and _float_valued(n.args[0], fn):
+                continue                   # the argument is the result of float arithmetic (a solve, a division, exp ..): never integer
             out.append((n.lineno, ast.unparse(n)[:120], "numpy.reciprocal keeps an integer dtype: reciprocal([2, 3]) is [0, 0]"))
             continue
         dt = None
